@@ -185,6 +185,22 @@ def handle (op : String) (args : List Val) : Option Val :=
         (hypRound (avgLossReg keyed) splitN (gradTab keyed co.2) copt sopt s co.1,
          co.1.map fun c => hypAssign (avgLossReg keyed) splitN (s.map (·.params)) c)) (s0, []) cohorts
     some (.list (res.map fun r => .list [.list (r.1.map renderState), Val.ofNats r.2]))
+  | "c12.hyp_with", [keyed, copt, sopt, clusters, cohorts, assigns] => do
+    -- the same history with the assignment of every round GIVEN (cluster id per client, cohort order): the
+    -- property fixes the assignment only up to ties among clusters of minimal loss
+    let keyed ← parseLoss keyed; let copt ← parseOptR copt; let sopt ← parseOptR sopt
+    let clusters ← clusters.toRatss?
+    let cohorts ← Val.mapM? (parseCohort parseHClient) cohorts
+    let assigns ← assigns.toNatss?
+    let s0 : List (ServerState P) := clusters.map fun p => ⟨p, sopt.init p⟩
+    let res := history (fun (s : List (ServerState P)) (x : (List (HClient Nat Batch Batch) × Tab) × List Nat) =>
+        let pairs := (x.1.1.map fun c => c.id).zip x.2
+        let assignOf : Nat → Nat := fun cid =>
+          match pairs.reverse.find? (fun p => p.1 == cid) with
+          | some p => p.2
+          | none => 0
+        hypRoundWith assignOf (gradTab keyed x.1.2) copt sopt s x.1.1) s0 (cohorts.zip assigns)
+    some (.list (res.map fun r => .list (r.map renderState)))
   | "c12.apfl", [keyed, copt, sopt, coef0, seg, params, cohorts] => do
     let keyed ← parseLoss keyed; let copt ← parseOptR copt; let sopt ← parseOptR sopt
     let coef0 ← coef0.toRat?; let seg ← seg.toNats?
